@@ -242,7 +242,7 @@ theorem toList_getD (b : Bytes) (j : Nat) : b.toList.getD j 0 = b.getD j 0 := by
   split <;> simp [*]
 
 section Tail
-attribute [-simp] Env.get Env.set tblLookup
+attribute [-simp] Env.get Env.set tblLookup getElem?_pos Array.getElem?_eq_getElem
 attribute [local simp] GoRebuild.Env.get_set tbl_rune extCall assignTargets
 
 theorem float_sim (b : Bytes) (tape : Array UInt64) (fuel : Nat) (e : Env) (pn : Nat) (ft : UInt64)
@@ -258,16 +258,69 @@ theorem float_sim (b : Bytes) (tape : Array UInt64) (fuel : Nat) (e : Env) (pn :
   generalize hc2 : b.getD 2 0 = c2
   simp only [Array.getD_eq_getD_getElem?] at hc0 hc1 hc2
   by_cases hm : c0 = 45
-  · sorry
+  · have hm' : (c0 == 45) = true := by simp [hm]
+    simp only [hm', if_true, hc0, hc1, hc2]
+    by_cases hg : pn > 1 + 1
+    · have hgi : (2 : Int) < pn := by omega
+      have n1 : (1 : Int) < b.size := by omega
+      have n2 : (2 : Int) < b.size := by omega
+      by_cases hz : c1 = 48
+      · by_cases hfl : numRune c2 &&& 2 = 0
+        · have efl := (runeU8_float c2).mpr hfl
+          simp [floatT, tailStmts, goparseNumber, hb, hp, hft, hszn, n1, n2, hc0, hc1, hc2, hm, hg, hgi, hle, hx, enc,
+            hz, hfl, efl, cisFloatOnlyFlag]
+        · have bfl : (runeU8 c2 &&& 2 == 0) = false := beq_false_of_ne (fun h => hfl ((runeU8_float c2).mp h))
+          cases hpf : parseFloat64 (b.toList.take pn) <;>
+          simp [floatT, tailStmts, goparseNumber, hb, hp, hft, hszn, n1, n2, hc0, hc1, hc2, hm, hg, hgi, hle, hx, enc,
+            hz, hfl, bfl, cisFloatOnlyFlag, hpf]
+      · have hz' : (c1 == 48) = false := beq_false_of_ne hz
+        cases hpf : parseFloat64 (b.toList.take pn) <;>
+        simp [floatT, tailStmts, goparseNumber, hb, hp, hft, hszn, n1, n2, hc0, hc1, hc2, hm, hg, hgi, hle, hx, enc,
+          hz, hz', hpf]
+    · have hgi : ¬ (2 : Int) < pn := by omega
+      cases hpf : parseFloat64 (b.toList.take pn) <;>
+      simp [floatT, tailStmts, goparseNumber, hb, hp, hft, hszn, hc0, hm, hg, hgi, hle, hx, enc, hpf]
   · have hm' : (c0 == 45) = false := beq_false_of_ne hm
     simp only [hm', Bool.false_eq_true, if_false, Nat.zero_add, hc0, hc1]
     by_cases hg : pn > 1
-    · sorry
+    · have hgi : (1 : Int) < pn := by omega
+      have n1 : (1 : Int) < b.size := by omega
+      by_cases hz : c0 = 48
+      · by_cases hfl : numRune c1 &&& 2 = 0
+        · have efl := (runeU8_float c1).mpr hfl
+          simp [floatT, tailStmts, goparseNumber, hb, hp, hft, hszn, n1, hc0, hc1, hm', hg, hgi, hle, hx, enc,
+            hz, hfl, efl, cisFloatOnlyFlag]
+        · have bfl : (runeU8 c1 &&& 2 == 0) = false := beq_false_of_ne (fun h => hfl ((runeU8_float c1).mp h))
+          cases hpf : parseFloat64 (b.toList.take pn) <;>
+          simp [floatT, tailStmts, goparseNumber, hb, hp, hft, hszn, n1, hc0, hc1, hm', hg, hgi, hle, hx, enc,
+            hz, hfl, bfl, cisFloatOnlyFlag, hpf]
+      · have hz' : (c0 == 48) = false := beq_false_of_ne hz
+        cases hpf : parseFloat64 (b.toList.take pn) <;>
+        simp [floatT, tailStmts, goparseNumber, hb, hp, hft, hszn, n1, hc0, hc1, hm', hg, hgi, hle, hx, enc,
+          hz, hz', hpf]
     · have hgi : ¬ (1 : Int) < pn := by omega
-      cases hpf : parseFloat64 (b.toList.take pn) with
-      | none =>
-        simp [floatT, tailStmts, goparseNumber, hb, hp, hft, hsz, hszn, hc0, hm', hg, hgi, hle, hx, hpf, enc]
-        trace_state
-        sorry
-      | some bits => sorry
+      cases hpf : parseFloat64 (b.toList.take pn) <;>
+      simp [floatT, tailStmts, goparseNumber, hb, hp, hft, hszn, hc0, hm', hg, hgi, hle, hx, hpf, enc]
+
+theorem int_sim (b : Bytes) (tape : Array UInt64) (fuel : Nat) (e : Env) (pn : Nat) (fu : UInt8) (isInt minus : Bool)
+    (hb : e.get "buf" = some (.bytes b)) (hp : e.get "pos" = some (.int pn)) (hf : e.get "found" = some (.u8 fu))
+    (hft : e.get "floatTag" = some (.u64 (mkWord tagFloat 0)))
+    (hI : (fu &&& 2 == 0) = isInt) (hM : (fu &&& 4 == 0) = !minus) (h1 : 1 ≤ pn) (hle : pn ≤ b.size) :
+    (∃ s', exec goFuns fuel [intIte] ⟨e, tape⟩ = .ret s' (enc (NumberProofs.core b.toList pn isInt minus)) ∧ s'.tape = tape) ∨
+    (∃ e' ft, exec goFuns fuel [intIte] ⟨e, tape⟩ = .normal ⟨e', tape⟩ ∧ e'.get "buf" = some (.bytes b) ∧
+       e'.get "pos" = some (.int pn) ∧ e'.get "floatTag" = some (.u64 ft) ∧
+       NumberProofs.core b.toList pn isInt minus = NumberProofs.floatPath b.toList pn ft) := by
+  have hx : (b.extract 0 pn).toList = b.toList.take pn := by simp
+  have hszn : 0 < b.size := by omega
+  have hp0 : (pn == 0) = false := by simp; omega
+  simp only [NumberProofs.core, toList_getD, hp0, Bool.false_eq_true, if_false]
+  generalize hc0 : b.getD 0 0 = c0
+  generalize hc1 : b.getD 1 0 = c1
+  simp only [Array.getD_eq_getD_getElem?] at hc0 hc1
+  cases isInt with
+  | false =>
+    simp [intIte, tailStmts, goparseNumber, hb, hp, hf, hft, hI]
+    trace_state
+    sorry
+  | true => sorry
 end Tail
